@@ -275,6 +275,9 @@ def run_generated(ctx, res, n, facet, batches, record=True):
         cfg = G.gen_cfg(rng)
         spec = G.gen_spec(rng, cfg)
         cfg = G.fix_cfg(cfg, spec)
+        if cfg.pop('edit', False):
+            cfg['edits'] = G.gen_edits(rng, spec)
+            for e in cfg['edits']: res.count('edit:' + e[0])
         if unstable_case(spec, cfg):
             res.unstable += 1
             continue
